@@ -153,11 +153,12 @@ func drawHistory(g *gen.G, descs []*ObjDesc, maxSteps int) []HStep {
 		k := t.Uint(20)
 		if forceFocus {
 			k = 0 // a query
-			if focusFam == HNewEQ && t.Chance(200) {
+			if focusFam == HNewEQ && !sq.eqOpt0[focusID].NilOpts && t.Chance(200) {
 				// ... or the caller changes the options of the focused query between two questions
 				var h HStep
 				h.Kind, h.Obj, h.Shape = HSetOpts, focusObj, focusID
 				h.EQ = drawEQOpts(g)
+				h.EQ.NilOpts = false
 				h.EQ.Furthest = sq.eqOpt[focusID].Furthest
 				sq.eqOpt[focusID] = h.EQ
 				steps = append(steps, h)
@@ -244,11 +245,13 @@ func drawHistory(g *gen.G, descs []*ObjDesc, maxSteps int) []HStep {
 			h.EQ = drawEQOpts(g)
 			if t.Chance(200) {
 				h.EQ.MaxError = s1.ChordAngleFromAngle(s1.Angle(t.Float() * 0.05))
+				h.EQ.NilOpts = false
 			}
-			if r := sq.pickEQ(t, obj); r >= 0 && t.Chance(400) {
+			if r := sq.pickEQ(t, obj); r >= 0 && !sq.eqOpt0[r].NilOpts && t.Chance(400) {
 				// change the options of an existing query instead (same sense: closest/furthest)
 				h.Kind = HSetOpts
 				h.Shape = r
+				h.EQ.NilOpts = false
 				h.EQ.Furthest = sq.eqOpt[r].Furthest
 				sq.eqOpt[r] = h.EQ
 				focusFam, focusID, focusObj, focusLeft = HNewEQ, r, obj, 1+int(t.Uint(3))
@@ -373,6 +376,7 @@ func drawHistory(g *gen.G, descs []*ObjDesc, maxSteps int) []HStep {
 						q.ReuseT = ti + 1
 					}
 					if q.Reuse < 0 && t.Chance(150) {
+						q.EQ.NilOpts = false
 						q.EQ.MaxError = s1.ChordAngleFromAngle(s1.Angle(t.Float() * 0.05))
 					}
 				}
